@@ -330,7 +330,26 @@ def routines(ids):
         "Pack.keep": with_repo(lambda r: (r.object_store.pack_loose_objects(), [p.keep(b"kept by test") for p in r.object_store.packs])),
         "refs.__setitem__": with_repo(lambda r: r.refs.__setitem__(b"refs/heads/master", ids[0])),
         "refs.__delitem__": with_repo(lambda r: r.refs.__delitem__(b"refs/heads/loose")),
+        # the same single-ref updates with a reflog entry (written under the ref's lock, before the lock is committed)
+        "refs.set_if_equals(loose,reflog)": with_repo(lambda r: r.refs.set_if_equals(b"refs/heads/loose", ids[0], ids[2], message=b"test: update")),
+        "refs.set_if_equals(packed,reflog)": with_repo(lambda r: r.refs.set_if_equals(b"refs/heads/b", ids[1], ids[2], message=b"test: update")),
+        "refs.add_if_new(reflog)": with_repo(lambda r: r.refs.add_if_new(b"refs/heads/new/x", ids[2], message=b"test: create")),
+        "refs.set_symbolic_ref(reflog)": with_repo(lambda r: r.refs.set_symbolic_ref(b"HEAD", b"refs/heads/b", message=b"test: switch")),
+        "refs.remove_if_equals(loose,reflog)": with_repo(lambda r: r.refs.remove_if_equals(b"refs/heads/loose", ids[0], message=b"test: delete")),
     }
+
+
+# routines that update exactly one ref file: when the call fails, that file holds its old content ("a write that fails or is
+# aborted leaves the old content in place")
+SINGLE_TARGET = {
+    "refs.set_if_equals(loose)": ".git/refs/heads/loose", "refs.set_if_equals(packed)": ".git/refs/heads/b",
+    "refs.add_if_new": ".git/refs/heads/new/x", "refs.set_symbolic_ref": ".git/HEAD", "refs.__setitem__": ".git/refs/heads/master",
+    "refs.set_if_equals(loose,reflog)": ".git/refs/heads/loose", "refs.set_if_equals(packed,reflog)": ".git/refs/heads/b",
+    "refs.add_if_new(reflog)": ".git/refs/heads/new/x", "refs.set_symbolic_ref(reflog)": ".git/HEAD",
+}
+# Deletions are not in the list: a removal has no content to put in place, dulwich removes the file and then logs/releases, so a
+# fault in those last steps reports an error for a deletion that has happened (first version of this rule flagged that: it asks
+# more than the statement does - removed).
 
 
 def file_map(root):
@@ -392,6 +411,10 @@ def run_fault(ctx, template, ids, name, k, kind, before, after, check="fault"):
     for rel in sorted(set(before) | set(after) | set(now)):
         if _is_temp(rel):
             continue
+        if rel.startswith(".git/logs/"):
+            # reflogs are appended to under the ref's lock (as in git), not replaced as a whole: a failed append may leave a
+            # created-but-empty or shorter log; what is demanded of them is only that the *ref* is not updated (rule 1b)
+            continue
         cur = now.get(rel)
         if cur != before.get(rel) and cur != after.get(rel):
             what = "partial/foreign content" if cur is not None else "file vanished"
@@ -400,6 +423,12 @@ def run_fault(ctx, template, ids, name, k, kind, before, after, check="fault"):
                      f"{rel} holds neither its old nor its complete new content ({what}; {len(cur) if cur is not None else '-'} bytes, "
                      f"old {len(before[rel]) if rel in before else '-'}, new {len(after[rel]) if rel in after else '-'})", check, case)
             break
+    # 1b. a single-ref update that failed has not happened
+    tgt = SINGLE_TARGET.get(name)
+    if tgt is not None and outcome.startswith("raised") and fired is not None and now.get(tgt) != before.get(tgt):
+        ctx.fail(f"C07:fault:{name}:failed-call-changed-the-file",
+                 f"{name}: {kind} at event {k} ({fired.brief(repo)}) made the call fail ({outcome}), yet {tgt} "
+                 f"{'now holds the new content' if now.get(tgt) is not None else 'is gone'}", check, case)
     # 2. the lock is released once the caller has dropped its references
     left = [rel for rel in now if rel.endswith(".lock") and rel not in before]
     if left and fired is not None:
